@@ -338,4 +338,28 @@ PROPS = {
             "ErrorKind::Interrupted (Gen.retryInterrupted) and whether the len<=buffer invariant is present",
         ],
     },
+    "C15": {
+        "modules": [T + "C15"],
+        "theorems": [(T + "C15.strict_eq_lenient_then_checks_text", T + "C15"),
+                     (T + "C15.strict_eq_lenient_then_checks_bytes", T + "C15"),
+                     (T + "C15.generated_strict_valid", T + "C15"),
+                     (T + "C15.strict_roundtrip_generated", T + "C15"),
+                     (T + "C01.tables", T + "C01"), (T + "C04.tables", T + "C04")],
+        "modules_extra": [T + "C01", T + "C04"],
+        "extract_keys": ["short checksum validity", "ENCODED_VALUE_SIZE", "SUBST_TABLE_48"],
+        "spec_is_property": True,
+        "streams": {
+            "quick": [("strict", "parse", 4000), ("strict", "parse-sweep", 32), ("strict", "frombin", 1500),
+                      ("strict", "gen", 2500), ("strict", "hist", 800), ("default", "gen", 800)],
+            "thorough": [("strict", "parse", 80000), ("strict", "parse-sweep", 2), ("strict", "frombin", 40000),
+                         ("strict", "gen", 40000), ("strict", "hist", 20000), ("unsafe-strict", "parse", 30000),
+                         ("unsafe-strict", "frombin", 20000), ("unsafe-strict", "gen", 10000),
+                         ("default", "gen", 20000), ("embedded", "gen", 10000)],
+        },
+        "rule": "frombin sweeps the checksum byte and the length code over all 256 values in the strict build; "
+                "every hash produced by the gen/state streams is checked for strict validity and strict round trip "
+                "by a direct oracle in the probe",
+        "assumptions": ["strict-parser changes only the parser; the strict probe configuration is default + "
+                        "strict-parser (+ serde)"],
+    },
 }
